@@ -94,8 +94,10 @@ func interleave(cc *c56.Compiled, inA, inB any, vars []any, pattern string) (ra,
 	}()
 	ctx, cancel := context.WithTimeout(context.Background(), 3*time.Second)
 	defer cancel()
+	// B is STARTED at its first step (not up front): a run that starts after A yielded an error must not be
+	// handed anything A still uses
 	itA := cc.Code.RunWithContext(ctx, inA, vars...)
-	itB := cc.Code.RunWithContext(ctx, inB, vars...)
+	var itB gojq.Iter
 	doneA, doneB, ea, eb := false, false, 0, 0
 	stepA := func() bool {
 		if doneA {
@@ -108,6 +110,9 @@ func interleave(cc *c56.Compiled, inA, inB any, vars []any, pattern string) (ra,
 	stepB := func() bool {
 		if doneB {
 			return false
+		}
+		if itB == nil {
+			itB = cc.Code.RunWithContext(ctx, inB, vars...)
 		}
 		d, to := step(itB, &rb, &eb)
 		doneB = d
@@ -144,7 +149,7 @@ func interleave(cc *c56.Compiled, inA, inB any, vars []any, pattern string) (ra,
 
 // cancelled: A's context is cancelled after k steps while B goes on; A must have yielded a prefix of what
 // it yields alone, then the context error, then nothing; B must yield what it yields alone
-func cancelled(cc *c56.Compiled, inA, inB any, vars []any, k int) (ra, rb []emitted, tail []string, status string, panicked string) {
+func cancelled(cc *c56.Compiled, inA, inB any, vars []any, k int) (ra, rb, started []emitted, tail []string, status string, panicked string) {
 	defer func() {
 		if r := recover(); r != nil {
 			panicked = fmt.Sprint(r)
@@ -163,11 +168,23 @@ func cancelled(cc *c56.Compiled, inA, inB any, vars []any, k int) (ra, rb []emit
 			var to bool
 			doneB, to = step(itB, &rb, &eb)
 			if to {
-				return ra, rb, nil, "timeout", ""
+				return ra, rb, nil, nil, "timeout", ""
 			}
 		}
 	}
 	cancelA()
+	itA.Next() // the context error (or the end); then a run STARTED after the cancellation must be undisturbed
+	itC := cc.Code.RunWithContext(ctxB, inB, vars...)
+	var rc []emitted
+	ec := 0
+	for d := false; !d; {
+		var to bool
+		d, to = step(itC, &rc, &ec)
+		if to {
+			return ra, rb, nil, nil, "timeout", ""
+		}
+	}
+	started = rc
 	for i := 0; i < 3; i++ { // A after cancellation, B in between
 		w, ok := itA.Next()
 		switch {
@@ -182,7 +199,7 @@ func cancelled(cc *c56.Compiled, inA, inB any, vars []any, k int) (ra, rb []emit
 			var to bool
 			doneB, to = step(itB, &rb, &eb)
 			if to {
-				return ra, rb, tail, "timeout", ""
+				return ra, rb, started, tail, "timeout", ""
 			}
 		}
 	}
@@ -190,10 +207,10 @@ func cancelled(cc *c56.Compiled, inA, inB any, vars []any, k int) (ra, rb []emit
 		var to bool
 		doneB, to = step(itB, &rb, &eb)
 		if to {
-			return ra, rb, tail, "timeout", ""
+			return ra, rb, started, tail, "timeout", ""
 		}
 	}
-	return ra, rb, tail, "done", ""
+	return ra, rb, started, tail, "done", ""
 }
 
 func recheck(what string, vals []emitted) string {
@@ -383,7 +400,7 @@ func history(c *Ctx, j c56.Job, mode int) (viol string, digest string, skipped s
 	// the same with A's context cancelled mid-run
 	{
 		k := len(r1) / 2
-		ra, rb, tail, stc, pan := cancelled(cc, in.Value, other.Value, vars, k)
+		ra, rb, rcs, tail, stc, pan := cancelled(cc, in.Value, other.Value, vars, k)
 		if pan != "" {
 			return "iterator A cancelled mid-run while iterator B goes on: panic: " + pan, digest, ""
 		}
@@ -393,7 +410,10 @@ func history(c *Ctx, j c56.Job, mode int) (viol string, digest string, skipped s
 		if len(ra) > len(r1) || c56.FirstDiff(snapsOf(r1)[:len(ra)], snapsOf(ra)) >= 0 {
 			return "iterator A before its cancellation is not a prefix of A alone: " + clip(strings.Join(snapsOf(ra), " ")), digest, ""
 		}
-		if k < len(r1) && !(len(tail) == 3 && (tail[0] == "canceled" || tail[0] == "end") && tail[1] == "end" && tail[2] == "end") {
+		if v = same("a run started after iterator A was cancelled vs B alone", snapsOf(rbs), snapsOf(rcs)); v != "" {
+			return v, digest, ""
+		}
+		if k < len(r1) && !(len(tail) == 3 && tail[0] == "end" && tail[1] == "end" && tail[2] == "end") {
 			return "iterator A after cancellation yields " + clip(strings.Join(tail, ", ")) + " (expected the context error, then the end)", digest, ""
 		}
 		if v = same("iterator B while iterator A is cancelled mid-run vs B alone", snapsOf(rbs), snapsOf(rb)); v != "" {
